@@ -31,10 +31,28 @@ type boundedResult struct {
 	Seconds    float64 `json:"seconds"`
 	Output     string  `json:"output,omitempty"`
 	Level      string  `json:"level"`
+	Known      []string `json:"known_findings,omitempty"`
 	ReplayPath string  `json:"replay,omitempty"`
 }
 
 var boundedHdr = regexp.MustCompile(`(?m)^// govc-bounded: (\w[\w-]*)=(.*)$`)
+
+// Known findings of a bounded stand-in: an entry of known_findings.json with obligation
+// "bounded:<file>#<case id>" and status "known". The ids listed for a file are handed to the test in
+// GOVC_KNOWN_CASES (separated by ';'); a test that meets a failing case with such an id prints
+// "GOVC-BOUNDED-KNOWN <id> <what it saw>" and goes on, any other failing case is a GOVC-BOUNDED-FAIL.
+func knownBoundedCases(prop, file string) map[string]knownFinding {
+	out := map[string]knownFinding{}
+	pre := "bounded:" + filepath.Base(file) + "#"
+	for _, k := range loadKnown() {
+		if k.Property == prop && k.Status == "known" && strings.HasPrefix(k.Obligation, pre) {
+			out[strings.TrimPrefix(k.Obligation, pre)] = k
+		}
+	}
+	return out
+}
+
+var boundedKnownLine = regexp.MustCompile(`(?m)^\s*GOVC-BOUNDED-KNOWN (\S+)(.*)$`)
 
 func runBounded(prop, tier, work string) (res []boundedResult, violations int) {
 	files, _ := filepath.Glob("/verif/bounded/" + prop + "_*.go")
@@ -59,11 +77,27 @@ func runBounded(prop, tier, work string) (res []boundedResult, violations int) {
 		os.WriteFile(ov, data, 0o644)
 		cmd := exec.Command("go", "test", "-overlay", ov, "-vet=off", "-count=1", "-timeout", "900s", "-run", "^TestGovcBounded$", "-v", "./"+r.Dir+"/")
 		cmd.Dir = repoRoot
-		cmd.Env = append(os.Environ(), "GOFLAGS=-mod=mod", "GOPROXY=off", "GOSUMDB=off", "GOTOOLCHAIN=local", "GOVC_BOUND_TIER="+tier)
+		knownCases := knownBoundedCases(prop, f)
+		cmd.Env = append(os.Environ(), "GOFLAGS=-mod=mod", "GOPROXY=off", "GOSUMDB=off", "GOTOOLCHAIN=local", "GOVC_BOUND_TIER="+tier,
+			"GOVC_KNOWN_CASES="+strings.Join(sortedKeys(knownCases), ";"))
 		t0 := time.Now()
 		out, _ := cmd.CombinedOutput()
 		r.Seconds = time.Since(t0).Seconds()
 		text := string(out)
+		seenKnown := map[string]bool{}
+		for _, m := range boundedKnownLine.FindAllStringSubmatch(text, -1) {
+			k, listed := knownCases[m[1]]
+			if !listed {
+				// the test may only waive what it was handed: treat as a failure
+				text = "GOVC-BOUNDED-FAIL case " + m[1] + " reported as known but not listed in known_findings.json:" + m[2] + "\n" + text
+				continue
+			}
+			if !seenKnown[m[1]] {
+				seenKnown[m[1]] = true
+				fmt.Printf("KNOWN-FINDING: property=%s %s: %s\n", prop, k.Obligation, k.What)
+				r.Known = append(r.Known, k.Obligation)
+			}
+		}
 		switch {
 		case strings.Contains(text, "GOVC-BOUNDED-FAIL"):
 			r.Status = "fail"
